@@ -1,6 +1,5 @@
 //! Shared by C01/C03/C07/C08/C11: frame generators and the canonical `dec` answer.
 use crate::common::*;
-use rs1090::decode::crc::modes_checksum;
 use rs1090::prelude::*;
 
 /// canonical text of serde_json output: floats re-printed with 9 decimals, everything else verbatim
@@ -89,7 +88,8 @@ pub fn set_parity(frame: &mut [u8], addr: u32) {
     frame[n - 3] = 0;
     frame[n - 2] = 0;
     frame[n - 1] = 0;
-    let rem = modes_checksum(frame, n * 8).unwrap_or(0) ^ addr;
+    // by the standard's polynomial division, not by the decoder's own modes_checksum
+    let rem = spec_parity24(&frame[..n - 3]) ^ addr;
     frame[n - 3] = (rem >> 16) as u8;
     frame[n - 2] = (rem >> 8) as u8;
     frame[n - 1] = rem as u8;
